@@ -327,7 +327,7 @@ SetC(path, t, ch) == [k |-> "set", p |-> path, v |-> [t |-> t, toks |-> <<Lit(ch
 SetF(path, toks) == [k |-> "set", p |-> path, v |-> [t |-> "fmt", toks |-> toks]]
 Consumer(kind, toks) == [k |-> kind, p |-> <<>>, v |-> [t |-> "fmt", toks |-> toks]]
 Plain(kind) == [k |-> kind, p |-> <<>>, v |-> NoTpl]
-KA == <<"ka">>  KB == <<"kb">>  KC == <<"kc">>  KDE == <<"kd", "ke">>
+KA == <<"ka">>  KB == <<"kb">>  KC == <<"kc">>  KDE == <<"kd", "ke">>  KDF == <<"kd", "kf">>
 MFab == Consumer("mf", <<Fld(KA), Lit("_"), Fld(KB)>>)
 Wa == Consumer("write", <<Fld(KA)>>)
 Cc == Consumer("cache", <<Fld(KC), Lit(".pkl")>>)
@@ -337,10 +337,14 @@ LeavesTiny == {SetC(KA, "int", "1"), SetC(KB, "int", "2"), Plain("store"), MFab,
 LeavesQuick == LeavesCore \cup {SetC(KA, "int", "2"), Wa, Cc, Plain("data"), Plain("acc")}
 LeavesFull == LeavesQuick \cup {SetC(KA, "str", "1"), SetF(KC, <<Lit("x"), Fld(KC)>>),
                                 SetC(KDE, "int", "1"), SetC(KDE, "int", "2"), SetF(KB, <<Fld(KDE)>>),
+                                SetC(KDF, "int", "1"), SetC(KDF, "int", "2"),
                                 Consumer("mf", <<Fld(KC)>>), Consumer("write", <<Fld(KB), Lit("_"), Fld(KDE)>>)}
 AllRoots == {"seq", "src", "split"}
 SeqRoots == {"seq", "src"}
 SrcRoot == {"src"}
+\* nested keys: recursive intersection
+LeavesNested == {SetC(KDE, "int", "1"), SetC(KDF, "int", "1"), SetC(KDF, "int", "2")}
+SeqRoot == {"seq"}
 LeavesMin == {SetC(KA, "int", "1"), SetC(KB, "int", "2"), Plain("ucfs"), MFab}
 
 (***************************************************************************)
